@@ -45,7 +45,7 @@ def run(S):
     fa = adjacency.explore_embedded(S, want=('C04',))
     fa += adjacency.explore_field_target(S, want=('C04',))
     adjacency.report(S, 'C04', fa)
-    fd, _ = deep.explore(S, want=('C04',))
+    fd, _ = deep.explore(S, deep.DOCS + deep.EMBED_DOCS, want=('C04',))
     deep.report(S, 'C04', fd)
     allw = set()
     for o in S.obls:
